@@ -10,18 +10,12 @@
 (* Step(pre, ev) the specification allows; each property has its own       *)
 (* invariant Ok_Cxx over (pre, ev, exp, cur) and the history variables.    *)
 (***************************************************************************)
-EXTENDS Relay, Json, IOUtils
+EXTENDS RelayProps, Json, IOUtils
 
 TraceFile == IF "VERIF_TRACE" \in DOMAIN IOEnv THEN IOEnv.VERIF_TRACE ELSE "trace.ndjson"
 Trace == ndJsonDeserialize(TraceFile)
 
-VARIABLES l,      \* next record
-          pre,    \* state before the last event
-          cur,    \* state after it (as logged)
-          ev,     \* the last event, parsed: [step, conn, req, sid, ret, out, popped]
-          exp,    \* Step(pre, ev)
-          views,  \* c -> what client c believes (Appendix D), from the logged messages only
-          gh      \* ghosts: ids ever issued, etc.
+VARIABLES l       \* next record
 
 tvars == <<l, pre, cur, ev, exp, views, gh>>
 
@@ -84,164 +78,26 @@ ParseOut(j) ==
      THEN LET ms == RowOf(j, K1, c)[2] IN [i \in DOMAIN ms |-> ParseMsg(ms[i])]
      ELSE <<>>]
 
+\* redundancy in the log: type names <-> ids inverse, objects filed under their own id
+ObsOK(j) ==
+  \A i \in DOMAIN j.sess :
+     LET S == j.sess[i] IN
+     /\ S.sid = S.rid
+     /\ \A x \in DOMAIN S.ents : S.ents[x][1] = S.ents[x][6]
+     /\ {<<S.types[x][2], S.types[x][1]>> : x \in DOMAIN S.types} = {<<S.names[x][1], S.names[x][2]>> : x \in DOMAIN S.names}
+
 ParseEvent(r) ==
-  [ step |-> r.step, conn |-> r.conn, req |-> ParseReq(r.req),
+  LET proc == "popped" \in DOMAIN r IN
+  [ step |-> r.step, conn |-> r.conn,
+    req |-> IF proc THEN ParseReq(r.popped) ELSE ParseReq(r.req),
+    given |-> ParseReq(r.req), proc |-> proc,
     sid |-> IF "sid" \in DOMAIN r THEN r.sid ELSE 0,
-    ret |-> r.ret, out |-> ParseOut(r.out) ]
-
-(***************************************************************************)
-(* Client views (Appendix D), computed from the logged messages only       *)
-(***************************************************************************)
-NoView == [joined |-> FALSE, sid |-> 0, pid |-> 0, parts |-> {}, ents |-> <<>>,
-           comps |-> <<>>, unsynced |-> {}, acts |-> <<>>, assets |-> <<>>, bad |-> <<>>]
-
-EntOfRow(r) == [owner |-> r[2], flag |-> r[3], px |-> r[4]]
-Bad(v, m)   == [v EXCEPT !.bad = Append(@, m)]
-
-\* apply one message to a view; `isOwn` marks messages that answer the client's own request
-ApplyMsg(v, m, req) ==
-  CASE m.t = "JOIN_RESPONSE" ->
-         [NoView EXCEPT !.joined = TRUE, !.sid = m.sid, !.pid = m.pid, !.parts = {m.pid}, !.bad = v.bad]
-    [] m.t = "SESSION_STATE" /\ "dup" \notin DOMAIN m ->
-         [v EXCEPT !.parts = m.parts,
-                   !.ents  = [e \in {r[1] : r \in m.ents} |-> EntOfRow(CHOOSE r \in m.ents : r[1] = e)],
-                   !.comps = [k \in {<<r[1], r[2]>> : r \in m.comps} |-> (CHOOSE r \in m.comps : <<r[1], r[2]>> = k)[3]],
-                   !.unsynced = {}]
-    [] m.t = "VIKJA_STATE" /\ "dup" \notin DOMAIN m ->
-         [v EXCEPT !.acts = [k \in {<<r[1], r[2]>> : r \in m.acts} |->
-                               LET r == CHOOSE x \in m.acts : <<x[1], x[2]>> = k IN [ts |-> r[3], data |-> r[4]]]]
-    [] m.t = "ODAL_STATE" /\ "dup" \notin DOMAIN m ->
-         [v EXCEPT !.assets = [e \in {r[1] : r \in m.assets} |->
-                               LET r == CHOOSE x \in m.assets : x[1] = e IN [id |-> r[2], asset |-> r[3], owner |-> r[4]]]]
-    [] m.t = "JOIN_BROADCAST" ->
-         IF m.pid \in v.parts THEN Bad(v, m) ELSE [v EXCEPT !.parts = @ \cup {m.pid}]
-    [] m.t = "LEAVE_BROADCAST" ->
-         IF m.pid \notin v.parts THEN Bad(v, m) ELSE [v EXCEPT !.parts = @ \ {m.pid}]
-    [] m.t = "ENTITY_ADD_BROADCAST" ->
-         IF m.ent[1] \in DOMAIN v.ents THEN Bad(v, m)
-         ELSE [v EXCEPT !.ents = Put(@, m.ent[1], EntOfRow(m.ent))]
-    [] m.t = "ENTITY_ADD_RESPONSE" ->
-         IF m.eid \in DOMAIN v.ents THEN Bad(v, m)
-         ELSE [v EXCEPT !.ents = Put(@, m.eid, [owner |-> v.pid, flag |-> req.flag,
-                                               px |-> IF req.px < 0 THEN 0 ELSE req.px])]
-    [] m.t = "ENTITY_DELETE_BROADCAST" ->
-         IF m.eid \notin DOMAIN v.ents THEN Bad(v, m)
-         ELSE [v EXCEPT !.ents = Drop(@, {m.eid}),
-                        !.comps = Drop(@, {k \in DOMAIN @ : k[2] = m.eid}),
-                        !.acts = Drop(@, {k \in DOMAIN @ : k[1] = m.eid}),
-                        !.assets = Drop(@, {m.eid})]
-    [] m.t = "ENTITY_DELETE_RESPONSE" ->
-         IF req.eid \notin DOMAIN v.ents THEN Bad(v, m)
-         ELSE [v EXCEPT !.ents = Drop(@, {req.eid}),
-                        !.comps = Drop(@, {k \in DOMAIN @ : k[2] = req.eid}),
-                        !.acts = Drop(@, {k \in DOMAIN @ : k[1] = req.eid}),
-                        !.assets = Drop(@, {req.eid})]
-    [] m.t = "POSE_BROADCAST" ->
-         IF m.eid \notin DOMAIN v.ents THEN Bad(v, m) ELSE [v EXCEPT !.ents[m.eid].px = m.px]
-    [] m.t = "COMP_ADD_BROADCAST" ->
-         LET k == <<m.comp[1], m.comp[2]>> IN
-         IF k[1] \notin v.unsynced /\ k \in DOMAIN v.comps THEN Bad(v, m)
-         ELSE [v EXCEPT !.comps = Put(@, k, m.comp[3])]
-    [] m.t = "COMP_ADD_RESPONSE" ->
-         [v EXCEPT !.comps = Put(@, <<req.tid, req.eid>>, req.data)]
-    [] m.t = "COMP_UPDATE_BROADCAST" ->
-         LET k == <<m.comp[1], m.comp[2]>> IN
-         IF k[1] \notin v.unsynced /\ k \notin DOMAIN v.comps THEN Bad(v, m)
-         ELSE [v EXCEPT !.comps = Put(@, k, m.comp[3])]
-    [] m.t = "COMP_DELETE_BROADCAST" ->
-         LET k == <<m.comp[1], m.comp[2]>> IN
-         IF k[1] \notin v.unsynced /\ k \notin DOMAIN v.comps THEN Bad(v, m)
-         ELSE [v EXCEPT !.comps = Drop(@, {k})]
-    [] m.t = "COMP_DELETE_RESPONSE" ->
-         [v EXCEPT !.comps = Drop(@, {<<req.tid, req.eid>>})]
-    [] m.t = "COMP_LIST_RESPONSE" /\ "dup" \notin DOMAIN m ->
-         [v EXCEPT !.comps = [k \in ({x \in DOMAIN @ : x[1] # req.tid} \cup {<<r[1], r[2]>> : r \in m.comps}) |->
-                                IF k[1] = req.tid THEN (CHOOSE r \in m.comps : <<r[1], r[2]>> = k)[3] ELSE @[k]],
-                   !.unsynced = @ \ {req.tid}]
-    [] m.t = "ACTION_BROADCAST" ->
-         IF m.act[1] \notin DOMAIN v.ents THEN Bad(v, m)
-         ELSE [v EXCEPT !.acts = Put(@, <<m.act[1], m.act[2]>>, [ts |-> m.act[3], data |-> m.act[4]])]
-    [] m.t = "ACTION_RESPONSE" ->
-         [v EXCEPT !.acts = Put(@, <<req.eid, req.name>>, [ts |-> req.ats, data |-> req.data])]
-    [] m.t = "ASSET_ADD_BROADCAST" ->
-         IF m.asset[1] \notin DOMAIN v.ents THEN Bad(v, m)
-         ELSE [v EXCEPT !.assets = Put(@, m.asset[1], [id |-> m.asset[2], asset |-> m.asset[3], owner |-> m.asset[4]])]
-    [] m.t = "ASSET_ADD_RESPONSE" ->
-         [v EXCEPT !.assets = Put(@, req.eid, [id |-> m.aid, asset |-> req.asset, owner |-> v.pid])]
-    [] OTHER -> v
-
-RECURSIVE ApplySeq(_, _, _)
-ApplySeq(v, ms, req) == IF ms = <<>> THEN v ELSE ApplySeq(ApplyMsg(v, Head(ms), req), Tail(ms), req)
-
-\* The request a client's own responses answer: for Req it is ev.req, for Proc the popped one.
-ReqOf(r) == IF "popped" \in DOMAIN r THEN ParseReq(r.popped) ELSE ParseReq(r.req)
-
-\* An accepted pose / component update of the client's own is applied locally
-\* (nothing is sent back to the sender).
-OwnSilent(v, req, preS, postS, pid) ==
-  CASE req.k = "Pose" /\ req.eid \in DOMAIN v.ents /\ req.eid \in DOMAIN postS.ents
-         /\ postS.ents[req.eid].owner = pid /\ req.px >= 0 /\ postS.ents[req.eid].px = req.px ->
-         [v EXCEPT !.ents[req.eid].px = req.px]
-    [] req.k = "CompUpdate" /\ <<req.tid, req.eid>> \in DOMAIN postS.comps
-         /\ <<req.tid, req.eid>> \in DOMAIN preS.comps /\ postS.comps[<<req.tid, req.eid>>] = req.data ->
-         [v EXCEPT !.comps = Put(@, <<req.tid, req.eid>>, req.data)]
-    [] OTHER -> v
-
-\* Component types whose content changed in this step without c being told.
-Missed(c, preS, postS, msgs) ==
-  LET told == {msgs[i].comp[1] : i \in {j \in DOMAIN msgs : msgs[j].t \in {"COMP_ADD_BROADCAST", "COMP_UPDATE_BROADCAST", "COMP_DELETE_BROADCAST"}}}
-      tids == {k[1] : k \in (DOMAIN preS.comps) \cup (DOMAIN postS.comps)}
-      \* changes caused by an entity disappearing are told through the entity-delete relay
-      live(k) == k[2] \in DOMAIN postS.ents
-      changed(t) == \E k \in (DOMAIN preS.comps) \cup (DOMAIN postS.comps) :
-                      /\ k[1] = t /\ live(k)
-                      /\ \/ (k \in DOMAIN preS.comps) # (k \in DOMAIN postS.comps)
-                         \/ (k \in DOMAIN preS.comps /\ k \in DOMAIN postS.comps /\ preS.comps[k] # postS.comps[k])
-  IN {t \in tids : changed(t) /\ t \notin told}
-
-NextViews(r, e, st0, st1) ==
-  [c \in Conns |->
-     LET v0 == views[c]
-         rq == ReqOf(r)
-         v1 == ApplySeq(v0, e.out[c], rq)
-         sid0 == st0.conns[c].sid
-         \* own silent updates
-         v2 == IF c = e.conn /\ e.step \in {"Req", "Proc"} /\ e.ret = "ok" /\ "popped" \in DOMAIN r
-                  /\ sid0 # 0 /\ sid0 \in DOMAIN st1.sess /\ st1.conns[c].sid = sid0
-               THEN OwnSilent(v1, rq, st0.sess[sid0], st1.sess[sid0], st0.conns[c].pid) ELSE v1
-         \* missed component changes (member before and after, not the actor)
-         v3 == IF sid0 # 0 /\ st1.conns[c].sid = sid0 /\ sid0 \in DOMAIN st1.sess /\ sid0 \in DOMAIN st0.sess
-                  /\ ~(c = e.conn /\ e.step \in {"Req", "Proc"})
-               THEN [v2 EXCEPT !.unsynced = @ \cup Missed(c, st0.sess[sid0], st1.sess[sid0], e.out[c])]
-               ELSE v2
-         \* a connection that is in no session any more holds no view
-         v4 == IF st1.conns[c].sid = 0 THEN [NoView EXCEPT !.bad = v3.bad] ELSE v3
-     IN v4]
-
-(***************************************************************************)
-(* Ghosts: ids ever issued per session incarnation (keyed by uuid)         *)
-(***************************************************************************)
-NoGhost == [pids |-> <<>>, eids |-> <<>>, uuids |-> {}, aids |-> <<>>]
-GetOr(f, k, d) == IF k \in DOMAIN f THEN f[k] ELSE d
-
-NextGhost(e, st0, st1) ==
-  LET us == {st1.sess[s].uuid : s \in DOMAIN st1.sess} IN
-  [ uuids |-> gh.uuids \cup us,
-    pids  |-> [u \in (DOMAIN gh.pids) \cup us |->
-                 GetOr(gh.pids, u, {}) \cup
-                 UNION {DOMAIN st1.sess[s].mem : s \in {x \in DOMAIN st1.sess : st1.sess[x].uuid = u}}],
-    eids  |-> [u \in (DOMAIN gh.eids) \cup us |->
-                 GetOr(gh.eids, u, {}) \cup
-                 UNION {DOMAIN st1.sess[s].ents : s \in {x \in DOMAIN st1.sess : st1.sess[x].uuid = u}}],
-    aids  |-> [u \in (DOMAIN gh.aids) \cup us |->
-                 GetOr(gh.aids, u, {}) \cup
-                 UNION {{st1.sess[s].assets[x].id : x \in DOMAIN st1.sess[s].assets} : s \in {x \in DOMAIN st1.sess : st1.sess[x].uuid = u}}] ]
+    ret |-> r.ret, out |-> ParseOut(r.out),
+    dead |-> ToSet(r.post.dead), obsOK |-> ObsOK(r.post) ]
 
 (***************************************************************************)
 (* Behaviour                                                               *)
 (***************************************************************************)
-InitEv == [step |-> "Init", conn |-> 0, req |-> [k |-> "none"], sid |-> 0, ret |-> "ok", out |-> NoOut]
-
 TraceInit ==
   /\ l = 1 /\ pre = InitState /\ cur = InitState /\ ev = InitEv /\ exp = {}
   /\ views = [c \in Conns |-> NoView] /\ gh = NoGhost
@@ -255,11 +111,12 @@ TraceNext ==
           /\ views' = [c \in Conns |-> NoView] /\ gh' = NoGhost
      ELSE LET e    == ParseEvent(r)
               post == ParseState(r.post)
+              nv   == NextViews(views, e, cur, post)
           IN /\ pre' = cur /\ cur' = post
-             /\ ev' = [e EXCEPT !.req = ReqOf(r)] @@ [given |-> e.req]
-             /\ exp' = Step(cur, e)
-             /\ views' = NextViews(r, e, cur, post)
-             /\ gh' = NextGhost(e, cur, post)
+             /\ ev' = e
+             /\ exp' = Step(cur, [e EXCEPT !.req = e.given])
+             /\ views' = nv
+             /\ gh' = NextGhost(gh, e, cur, post, views, nv)
 
 TraceSpec == TraceInit /\ [][TraceNext]_tvars
 
@@ -267,13 +124,6 @@ TraceSpec == TraceInit /\ [][TraceNext]_tvars
 TraceDone == l = Len(Trace) + 1
 Finished  == TLCGet("queue") > 0 \/ TraceDone
 
-(***************************************************************************)
-(* Exact conformance (spec fidelity): the logged outcome is one of the     *)
-(* outcomes the specification allows.  Not a property check - it shows,    *)
-(* on the unchanged tree, that Relay.tla describes the code.               *)
-(***************************************************************************)
 TraceAccepted == TLCGet("stats").diameter - 1 = Len(Trace)
 
-IsStep == ev.step # "Init"
-Conforms == IsStep => \E o \in exp : o.st = cur /\ o.out = ev.out /\ o.ret = ev.ret
 =============================================================================
